@@ -13,14 +13,15 @@ try:
     na_reasons = json.load(open(os.path.join(ROOT, 'not_applicable.json')))
 except FileNotFoundError:
     na_reasons = {}
+claimed = set(json.load(open(os.path.join(ROOT, 'claimed.json'))))
 for pid in ids:
     path = os.path.join(ROOT, 'props', pid + '.py')
     m = None
-    if os.path.exists(path) and pid not in na_reasons:
+    if os.path.exists(path) and pid not in na_reasons and pid in claimed:
         mod = importlib.import_module('props.' + pid)
         m = getattr(mod, 'MANIFEST', None)
     if not m:
-        na.append(dict(property_id=pid, reason=na_reasons.get(pid, 'check not built yet (see DESIGN.md section 3 for the plan)')))
+        na.append(dict(property_id=pid, reason=na_reasons.get(pid, 'check under construction in this round (see DESIGN.md section 3 for the plan); not yet claimed')))
         continue
     checks.append(dict(
         property_id=pid,
